@@ -24,6 +24,7 @@ Core Lean only: this file is imported by the compiled driver.
 -/
 import Macaroon.Token.Concrete
 import Macaroon.Format.Header
+import Macaroon.Flyio.Scopes
 
 namespace Macaroon
 namespace Bundle
@@ -169,6 +170,28 @@ def undischarged (pl : Bytes) (ts : List Tok) : List (Bytes × Bytes) :=
 def undischargedAt (pl : Bytes) (ts : List Tok) (loc : Bytes) : List Bytes :=
   ((undischarged pl ts).filter fun lt => decide (lt.1 = loc)).map (·.2)
 
+/-! ### The Fly.io locations (flyio/flyio.go; checked against the regenerated constants in Props/C13) -/
+
+/-- `flyio.LocationPermission` -/
+def flyioPermission : Bytes := Header.asciiBytes Header.flyioLocationPermission
+/-- `flyio.LocationAuthentication` -/
+def flyioAuthentication : Bytes := Header.asciiBytes "https://api.fly.io/aaa/v1".toList
+/-- `flyio.LocationNewAuthentication` -/
+def flyioNewAuthentication : Bytes := Header.asciiBytes "https://auth.fly.io".toList
+/-- `flyio.LocationSecrets` -/
+def flyioSecrets : Bytes := Header.asciiBytes "https://api.fly.io/secrets/v1".toList
+
+/-- the body of `flyio.IsForOrgUnverified(oid)`: a macaroon at the Fly.io permission location whose
+UNVERIFIED caveats have the organization scope `oid` exactly (`OrganizationScope` without error) -/
+def forOrgUnverified (oid : UInt64) (t : Tok) : Bool :=
+  isPermAt flyioPermission t &&
+  match t.mac? with
+  | some m =>
+    match Flyio.organizationScope m.cavs with
+    | .ok o => o == oid
+    | .error _ => false
+  | none => false
+
 /-! ### Filters -/
 
 /-- the exported filter vocabulary as data.  In Go `And/Or/Not` take predicates only; here they
@@ -183,6 +206,7 @@ inductive Filter
   | isMissingDischarge (loc : Bytes)
   | allowsAccess (rs : List Access)
   | default                      -- `DefaultFilter(b.IsPermissionToken)`
+  | isForOrgUnverified (oid : UInt64)   -- `flyio.IsForOrgUnverified(oid)`
 
 /-- does `p` (a permission token) carry a ticket for location `loc` that no discharge answers -/
 def missingAt (pl : Bytes) (ts : List Tok) (loc : Bytes) (p : Tok) : Bool :=
@@ -209,6 +233,7 @@ def Filter.mask (pl : Bytes) : Filter → List Tok → List Bool
       | none => false
   | .default, ts => ts.map fun t => t.isNonMac || isPermAt pl t || (isDisAt pl t && hasPermFor pl ts t)
   | .isMissingDischarge loc, ts => ts.map fun t => isPermAt pl t && missingAt pl ts loc t
+  | .isForOrgUnverified oid, ts => ts.map (forOrgUnverified oid)
   | .withDischarges f, ts =>
       let fm := f.mask pl ts
       -- the permission tokens selected by `f`
@@ -223,6 +248,17 @@ def applyMask {α : Type} : List Bool → List α → List α
 
 /-- `f.Apply(ts)` -/
 def Filter.apply (pl : Bytes) (f : Filter) (ts : List Tok) : List Tok := applyMask (f.mask pl ts) ts
+
+/-- `flyio.IsPermissionToken` / `IsAuthToken` / `IsNewAuthToken` / `IsSecretsToken` -/
+def Filter.flyioIsPermissionToken : Filter := .location flyioPermission
+def Filter.flyioIsAuthToken : Filter := .location flyioAuthentication
+def Filter.flyioIsNewAuthToken : Filter := .location flyioNewAuthentication
+def Filter.flyioIsSecretsToken : Filter := .location flyioSecrets
+
+/-- `flyio.IsForOrg(orgID)` = `AllowsAccess(&flyio.Access{OrgID: &orgID, Action: ActionNone})`;
+`flyio.Access.Now()` is the wall clock `(sec, nsec)` -/
+def Filter.flyioIsForOrg (oid : UInt64) (sec : Int) (nsec : Nat) : Filter :=
+  .allowsAccess [(Flyio.orgReq oid).toAccess sec nsec]
 
 /-! ### The bundle (value level) -/
 
@@ -262,6 +298,15 @@ def undischargedTickets (b : Bundle) : List (Bytes × Bytes) := undischarged b.p
 
 /-- `UndischargedTicketsForThirdParty` -/
 def undischargedTicketsFor (b : Bundle) (loc : Bytes) : List Bytes := undischargedAt b.permLoc b.ts loc
+
+/-- `flyio.ParseBundle` / `flyio.ParseBundleWithFilter` -/
+def flyioParse (hdr : Str) : Bundle × Bool := parse flyioPermission hdr
+def flyioParseWith (hdr : Str) (f : Filter) : Bundle × Bool := parseWith flyioPermission hdr f
+
+/-- what `flyio.UUIDs` / `flyio.NonceEmails` render: the nonces (key-id, randomness) of the tokens at
+the Fly.io permission location, in bundle order (the UUID itself is SHA-1 based and not modelled) -/
+def flyioNonces (b : Bundle) : List (Bytes × Bytes) :=
+  (Filter.flyioIsPermissionToken.apply b.permLoc b.ts).filterMap fun t => t.mac?.map fun m => (m.nonce.kid, m.nonce.rnd)
 
 /-- `Clone`: print and re-parse (verification state is lost, every token is classified afresh) -/
 def clone (b : Bundle) : Bundle := { b with ts := parseToks b.header }
